@@ -36,6 +36,7 @@ class World:
         self.mod = mod
         self.fs = simfs.SimFS()
         self.fs.install(mod)
+        self.fs.live.add(110)
         self.inst = {}        # name -> dict(alive, pid, pf)
 
     def canon(self):
@@ -75,7 +76,8 @@ class World:
                     ops.append(("rename", n, P if i["pf"].fname != P else P2))
             ops.append(("die", n))
         for path in (P, P2):
-            for content in (b"", b"garbage\n", b"11\n", b"12\n", b"99\n"):
+            # 110 is a live process outside the model whose pid has A's / C's pid as a proper prefix; 1 is a prefix of both
+            for content in (b"", b"garbage\n", b"11\n", b"12\n", b"99\n", b"110\n", b"1\n"):
                 if self.fs.files.get(path) is None or self.fs.files[path].data != content:
                     ops.append(("foreign", path, content))
         return ops
@@ -330,7 +332,8 @@ def conformance(depth, cap):
         for hist in frontier:
             w, _ = replay_history(mod, hist, check_last=False)
             for op in w.enabled():
-                if op[1] == "C" or (op[0] == "foreign" and op[2] == b"99\n"):
+                # (contents naming pids outside the model - 99, and the prefix-related 110 / 1 - cannot be reproduced with real pids)
+                if op[1] == "C" or (op[0] == "foreign" and op[2] in (b"99\n", b"110\n", b"1\n")):
                     continue
                 # a foreign file naming a pid that only later becomes an instance is pid reuse: not replayable
                 if op[0] == "foreign" and ((op[2] == b"11\n" and "A" not in w.inst) or (op[2] == b"12\n" and "B" not in w.inst)):
